@@ -722,7 +722,9 @@ type c13AgainCell struct {
 	SecondMode string   `json:"second_mode"`
 	SecondType string   `json:"second_type"` // same | other
 	When       string   `json:"when"`        // before-first-sync | after-first-sync
-	IDSeed     uint64   `json:"id_seed"`
+	// Handlers of the second request: all | none (nil *Handlers) | no-error-handler (NewHandlers(f, g, nil))
+	Handlers string `json:"handlers"`
+	IDSeed   uint64 `json:"id_seed"`
 }
 
 func c13AgainRun(cell c13AgainCell) error {
@@ -786,7 +788,15 @@ func c13AgainRun(cell c13AgainCell) error {
 	var pan interface{}
 	func() {
 		defer func() { pan = recover() }()
-		second = openRealOrNil(actor, kind2, k.Name, cell.SecondMode, d2.handlers())
+		var h2 *orda.Handlers
+		switch cell.Handlers {
+		case "none":
+		case "no-error-handler":
+			h2 = orda.NewHandlers(func(orda.Datatype, model.StateOfDatatype, model.StateOfDatatype) {}, func(orda.Datatype, []interface{}) {}, nil)
+		default:
+			h2 = d2.handlers()
+		}
+		second = openRealOrNil(actor, kind2, k.Name, cell.SecondMode, h2)
 	}()
 	if pan != nil {
 		return fmt.Errorf("asking for the key again (%s, %s type) panicked: %v", cell.SecondMode, cell.SecondType, pan)
@@ -794,7 +804,12 @@ func c13AgainRun(cell c13AgainCell) error {
 	d2.mu.Lock()
 	errs2 := append([]string{}, d2.errs...)
 	d2.mu.Unlock()
-	if cell.SecondType == "other" {
+	if cell.SecondType == "other" && cell.Handlers != "all" {
+		// nobody to deliver the error to: the call still has to be refused - no datatype of the other type
+		if second != nil {
+			return fmt.Errorf("%s of a key that this client holds as %s, asked for as %s with handlers=%s, was not refused: a datatype (%v) was returned", cell.SecondMode, cell.Kind, kind2, cell.Handlers, second.GetType())
+		}
+	} else if cell.SecondType == "other" {
 		if len(errs2) == 0 {
 			return fmt.Errorf("%s of a key that this client holds as %s, asked for as %s, was not refused: the error handler of the call was not called (result nil: %v)", cell.SecondMode, cell.Kind, kind2, second == nil)
 		}
@@ -870,8 +885,8 @@ func openRealOrNil(cl orda.Client, kind sim.Kind, key, mode string, h *orda.Hand
 // TestC13SameClientAgain: the contract when ONE client asks twice for the same key.
 func TestC13SameClientAgain(t *testing.T) {
 	col := stats.New("C13", t.Name(),
-		"EXHAUSTIVE matrix through REAL clients: one client opens a key (create / subscribe of an existing datatype / subscribe-or-create) and asks for the same key again (3 modes) as the same type or as another type, before its first Sync() or after it (already subscribed), 4 kinds = 144 cells; operations are made through both returned datatypes; "+
-			"oracle: asked for as another type the call is refused (the call's error handler fires) and the datatype held first is undisturbed; asked for as the same type no error fires and the returned datatype is usable: after Sync() it is SUBSCRIBED and shows the server's copy, which contains the operations made through both; the first datatype reports SUBSCRIBED exactly once; one datatype document of the first type for the key; "+
+		"EXHAUSTIVE matrix through REAL clients: one client opens a key (create / subscribe of an existing datatype / subscribe-or-create) and asks for the same key again (3 modes) as the same type or as another type, before its first Sync() or after it (already subscribed), the second request with all handlers / without handlers (nil) / without an error handler, 4 kinds = 432 cells; operations are made through both returned datatypes; "+
+			"oracle: asked for as another type the call is refused (the call's error handler fires; without one the call returns nothing and does not panic) and the datatype held first is undisturbed; asked for as the same type no error fires and the returned datatype is usable: after Sync() it is SUBSCRIBED and shows the server's copy, which contains the operations made through both; the first datatype reports SUBSCRIBED exactly once; one datatype document of the first type for the key; "+
 			"non-trivial = every cell; distinct = the cell")
 	defer col.Flush()
 	shard, nshards := envInt("VERIF_SHARD", 0), envInt("VERIF_NSHARDS", 1)
@@ -881,21 +896,23 @@ func TestC13SameClientAgain(t *testing.T) {
 			for _, m2 := range []string{"create", "subscribe", "subscribe-or-create"} {
 				for _, ty := range []string{"same", "other"} {
 					for _, when := range []string{"before-first-sync", "after-first-sync"} {
-						i++
-						if i%nshards != shard {
-							continue
-						}
-						cell := c13AgainCell{Kind: kind, FirstMode: m1, SecondMode: m2, SecondType: ty, When: when, IDSeed: uint64(12000 + i)}
-						if err := c13AgainRun(cell); err != nil {
-							j := &Journal{Property: "C13", Test: t.Name(), Header: cell}
-							col.Flush()
-							if strings.HasPrefix(err.Error(), "HARNESS-ERROR") {
-								fmt.Println(err.Error())
-								t.Fatalf("%v", err)
+						for _, hs := range []string{"all", "none", "no-error-handler"} {
+							i++
+							if i%nshards != shard {
+								continue
 							}
-							enumFail(t, "C13", j, "cell %+v: %v", cell, err)
+							cell := c13AgainCell{Kind: kind, FirstMode: m1, SecondMode: m2, SecondType: ty, When: when, Handlers: hs, IDSeed: uint64(12000 + i)}
+							if err := c13AgainRun(cell); err != nil {
+								j := &Journal{Property: "C13", Test: t.Name(), Header: cell}
+								col.Flush()
+								if strings.HasPrefix(err.Error(), "HARNESS-ERROR") {
+									fmt.Println(err.Error())
+									t.Fatalf("%v", err)
+								}
+								enumFail(t, "C13", j, "cell %+v: %v", cell, err)
+							}
+							col.Case(true, fmt.Sprintf("again %+v", cell), []string{"first=" + m1, "second=" + m2, "second-type=" + ty, when, "second-handlers=" + hs}, func() interface{} { return cell })
 						}
-						col.Case(true, fmt.Sprintf("again %+v", cell), []string{"first=" + m1, "second=" + m2, "second-type=" + ty, when}, func() interface{} { return cell })
 					}
 				}
 			}
